@@ -698,7 +698,7 @@ theorem pullRows_inv (d : Defects) (hd : d.ingestUnindexed = false) (src : Site)
       Keys (pullRows d src e dst).rows (dst.rows ++ src.rows) := by
   unfold pullRows
   dsimp only
-  have hsub : ∀ x, x ∈ ((src.rows.filter fun r => r.ent = e).filter fun r =>
+  have hsub : ∀ x, x ∈ ((src.rows.filter fun r => r.ent = e && !(dst.tombs.any fun t => t.n = r.n)).filter fun r =>
         match findRow r.n dst.rows with
         | none => true
         | some old => old.ver < r.ver).foldl (fun acc r => insertByCtick r acc) [] → x ∈ src.rows := by
